@@ -14,6 +14,7 @@ import (
 
 // VerifyFunc generates the obligations of one function contract (Mode A).
 func VerifyFunc(p *Program, fc *FuncContract) (g *Gen, err error) {
+	var frameOblig *Oblig
 	fn := p.LookupFunc(fc.Pkg, fc.Name)
 	if fn == nil {
 		return nil, fmt.Errorf("contract-target-missing: %s.%s", fc.Pkg, fc.Name)
@@ -37,16 +38,49 @@ func VerifyFunc(p *Program, fc *FuncContract) (g *Gen, err error) {
 		raw := p.RawModSetOf(fn)
 		decl := p.DeclaredMods(fc)
 		if !decl.All {
+			pkgShort := fc.Pkg[strings.LastIndex(fc.Pkg, "/")+1:]
+			fo := &Oblig{Name: pkgShort + "." + fc.Name + "#frame", Kind: "frame", Goal: "true", Text: "modifies " + strings.Join(fc.Mods, ", ") + " (writes to objects allocated during the call are always allowed)"}
 			if raw.All {
-				g.Assumptions["declared frame `modifies "+strings.Join(fc.Mods, ",")+"` of "+fc.Pkg+"."+fc.Name+" is not verified (its body makes dynamic calls)"] = true
+				fo.Pre = "unknown"
+				fo.Model = "the frame cannot be inferred: " + p.WhyAll(fn)
 			} else {
+				fo.Pre = "unsat"
+				var bad []string
+				forbid := strings.Fields(fc.Opts["frame-forbid"])
 				for k := range raw.Maps {
-					if !decl.Maps[k] {
-						return nil, fmt.Errorf("frame violation: %s.%s writes %s, which its `modifies` clause does not allow", fc.Pkg, fc.Name, k)
+					if decl.Maps[k] {
+						continue
 					}
+					if len(forbid) > 0 {
+						hit := false
+						for _, fb := range forbid {
+							if strings.Contains(k, fb) {
+								hit = true
+							}
+						}
+						if !hit {
+							continue
+						}
+					}
+					bad = append(bad, k+" (e.g. "+p.WhyKey(fn, k)+")")
+				}
+				sort.Strings(bad)
+				if len(bad) > 0 {
+					fo.ReplayTemplate = fc.Opts["scenario"]
+					fo.ReplayPkgDir = strings.TrimPrefix(strings.TrimPrefix(fc.Pkg, modPath), "/")
+					fo.Pre = "sat"
+					fo.Model = "writes to pre-existing objects through heap maps outside the declared frame: " + strings.Join(bad, "; ")
 				}
 			}
+			frameOblig = fo
 		}
+	}
+	if fc.Opts["frame-only"] != "" {
+		if frameOblig == nil {
+			return nil, fmt.Errorf("contract of %s.%s is frame-only but declares no bounded `modifies` clause", fc.Pkg, fc.Name)
+		}
+		g.addOblig(frameOblig)
+		return g, nil
 	}
 	f := g.newFrame(fn, "", true)
 	entry := g.newBaseHeap("entry")
@@ -73,6 +107,9 @@ func VerifyFunc(p *Program, fc *FuncContract) (g *Gen, err error) {
 		if c.Kind == "requires" {
 			g.assume(envPre.trBool(c.E))
 		}
+	}
+	if frameOblig != nil {
+		g.addOblig(frameOblig)
 	}
 	g.addOblig(&Oblig{Name: f.obName("cover", nil, 0) + "requires-satisfiable", Kind: "cover", Goal: "false", Cover: true})
 	f.Walk(args, entry, "true")
@@ -366,6 +403,14 @@ func (g *Gen) Tasks(dir string, timeoutS int) []func() {
 		}
 		if o.Pre != "" {
 			o.Status, o.Solver = o.Pre, "dataflow"
+			if o.Status != "unsat" && o.ReplayTemplate != "" {
+				o := o
+				ts = append(ts, func() {
+					out, ok := replayTemplate(g.P.Repo, o.ReplayTemplate, o.ReplayPkgDir, map[string]string{})
+					o.ReplayOut, o.WitnessConfirmed = out, ok
+					o.Witness = "scenario " + o.ReplayTemplate
+				})
+			}
 			continue
 		}
 		ts = append(ts, func() { Discharge(g, o, dir, timeoutS) })
